@@ -28,10 +28,10 @@ def GobRest (C : Ctx) : Prop := ∀ r o r', C.gobDec r = some (o, r') → r'.len
 /-- assumption on the gob parameter: its allocations are linear in its input -/
 def GobAlloc (C : Ctx) (a b : Nat) : Prop := ∀ r, C.gobAlloc r ≤ a * r.length + b
 
-private theorem isPanic_of_RSat {α} {P : α → Prop} {r : Res α} (h : RSat P r) : r.isPanic = false := by
+private theorem isPanic_of_RSat {α} {O : Prop} {P : α → Prop} {r : Res α} (h : RSat O P r) : r.isPanic = false := by
   cases r <;> simp_all [RSat, Res.isPanic]
 
-private theorem rsat_of_noPanic {α} {r : Res α} (h : r.isPanic = false) : RSat (fun _ => True) r := by
+private theorem rsat_of_noPanic {α} {r : Res α} (h : r.isPanic = false) : RSat True (fun _ => True) r := by
   cases r <;> simp_all [RSat, Res.isPanic]
 
 private theorem gobOK_true {C : Ctx} (h : GobRest C) (L : Nat) : GobOK C (fun _ => True) L :=
@@ -41,22 +41,50 @@ private theorem gobOK_true {C : Ctx} (h : GobRest C) (L : Nat) : GobOK C (fun _ 
     value or an error. -/
 theorem decodeObject_no_panic (C : Ctx) (hG : GobRest C) (fuel : Nat) (bs : Bytes) :
     (decodeObjectF C fuel bs).res.isPanic = false :=
-  isPanic_of_RSat ((decSpec C (fun _ => True) bs.length (fun _ _ => trivial) (gobOK_true hG _) fuel).1 bs
-    (Nat.le_refl _)).1
+  isPanic_of_RSat ((decSpec True C (fun _ => True) bs.length (fun _ _ => trivial) (gobOK_true hG _) fuel).1 bs
+    (Nat.le_refl _) (Or.inl trivial)).1
 
 /-- `DecodeBytecodeFrom` (header check, version dispatch, field loop, v1 conversion,
     `fixObjects`) never panics, for both header versions and every other byte string. -/
 theorem decode_no_panic (C : Ctx) (conv : BC → Res BC) (mods : Mods) (hG : GobRest C)
     (hconv : ∀ bc, (conv bc).isPanic = false) (fuel : Nat) (bs : Bytes) :
     (decodeBytecodeF C conv mods fuel bs).res.isPanic = false :=
-  isPanic_of_RSat (decodeBytecodeF_sat conv mods fuel bs (fun _ _ => trivial) (gobOK_true hG _)
-    (fun bc => rsat_of_noPanic (hconv bc))).1
+  isPanic_of_RSat (decodeBytecodeF_sat (O := True) conv mods fuel bs (fun _ _ => trivial) (gobOK_true hG _)
+    (fun bc => rsat_of_noPanic (hconv bc)) (Or.inl trivial)).1
 
 /-- the same for the fuel the driver uses (`decodeBytecode`, `decodeObject`) -/
 theorem decode_no_panic' (C : Ctx) (conv : BC → Res BC) (mods : Mods) (hG : GobRest C)
     (hconv : ∀ bc, (conv bc).isPanic = false) (bs : Bytes) :
     (decodeBytecode C conv mods bs).res.isPanic = false ∧ (decodeObject C bs).res.isPanic = false :=
   ⟨decode_no_panic C conv mods hG hconv _ bs, decodeObject_no_panic C hG _ bs⟩
+
+/-- Fuel is not an escape hatch: with fuel ≥ 2·|bs|+2 (in particular with the driver's
+    3·|bs|+16) the model never answers with its artificial out-of-fuel error, so every `err`
+    of `decodeBytecode`/`decodeObject` stands for an error the Go code returns.  (`conv`, the
+    C11 converter, is assumed not to produce that error either.) -/
+theorem decode_never_out_of_fuel (C : Ctx) (conv : BC → Res BC) (mods : Mods) (hG : GobRest C)
+    (hconv : ∀ bc, (conv bc).isPanic = false ∧ conv bc ≠ .err oofErr) (fuel : Nat) (bs : Bytes)
+    (hf : 2 * bs.length + 2 ≤ fuel) :
+    (decodeBytecodeF C conv mods fuel bs).res ≠ .err oofErr ∧
+    (decodeObjectF C fuel bs).res ≠ .err oofErr := by
+  have hc : ∀ bc, RSat False (fun _ => True) (conv bc) := by
+    intro bc
+    obtain ⟨h1, h2⟩ := hconv bc
+    cases h : conv bc with
+    | ok a => trivial
+    | err e => exact Or.inr (fun he => h2 (by rw [h, he]))
+    | panic m => rw [h] at h1; simp [Res.isPanic] at h1
+  have h1 := (decodeBytecodeF_sat (O := False) conv mods fuel bs (fun _ _ => trivial) (gobOK_true hG _) hc
+    (Or.inr hf)).1
+  have h2 := ((decSpec False C (fun _ => True) bs.length (fun _ _ => trivial) (gobOK_true hG _) fuel).1 bs
+    (Nat.le_refl _) (Or.inr (by omega))).1
+  constructor
+  · intro he; rw [he] at h1; rcases h1 with h | h
+    · exact h
+    · exact h rfl
+  · intro he; rw [he] at h2; rcases h2 with h | h
+    · exact h
+    · exact h rfl
 
 /-- explicit instances for the two supported header versions -/
 theorem decode_no_panic_versions (C : Ctx) (conv : BC → Res BC) (mods : Mods) (hG : GobRest C)
@@ -99,13 +127,14 @@ theorem decode_alloc (C : Ctx) (conv : BC → Res BC) (mods : Mods) (a b : Nat) 
     (hG : GobRest C) (hA : GobAlloc C a b) (hconv : ∀ bc, (conv bc).isPanic = false)
     (fuel : Nat) (bs : Bytes) :
     ∀ n ∈ (decodeBytecodeF C conv mods fuel bs).allocs, n ≤ a * bs.length + b :=
-  (decodeBytecodeF_sat conv mods fuel bs (dominates_lin a b _ ha hb) (gobOK_lin hG a b _ hA)
-    (fun bc => rsat_of_noPanic (hconv bc))).2
+  (decodeBytecodeF_sat (O := True) conv mods fuel bs (dominates_lin a b _ ha hb) (gobOK_lin hG a b _ hA)
+    (fun bc => rsat_of_noPanic (hconv bc)) (Or.inl trivial)).2
 
 theorem decodeObject_alloc (C : Ctx) (a b : Nat) (ha : 24 ≤ a) (hb : 268 ≤ b)
     (hG : GobRest C) (hA : GobAlloc C a b) (fuel : Nat) (bs : Bytes) :
     ∀ n ∈ (decodeObjectF C fuel bs).allocs, n ≤ a * bs.length + b :=
-  ((decSpec C _ bs.length (dominates_lin a b _ ha hb) (gobOK_lin hG a b _ hA) fuel).1 bs (Nat.le_refl _)).2
+  ((decSpec True C _ bs.length (dominates_lin a b _ ha hb) (gobOK_lin hG a b _ hA) fuel).1 bs (Nat.le_refl _)
+    (Or.inl trivial)).2
 
 /-- Full-strength allocation statement, with the constants the `dec` stream's oracle uses:
     the *sum* of all allocations of one decode is at most 64·|bs| + 64 KiB.
